@@ -3,6 +3,7 @@ package core
 import (
 	"github.com/reeflective/readline/inputrc"
 	"github.com/reeflective/readline/internal/strutil"
+	"github.com/reeflective/readline/internal/term"
 )
 
 // Cursor is the cursor position in the current line buffer.
@@ -379,6 +380,18 @@ func CoordinatesCursor(cur *Cursor, indent int) (x, y int) {
 			line := (*cur.line)[bpos:cur.pos]
 			usedX, y := strutil.LineSpan(line, 0, indent)
 			usedY += y
+
+			// A double-width character under the cursor that does not
+			// fit in the last column is on the next row, so is the cursor.
+			if cur.pos < cur.line.Len() {
+				char := (*cur.line)[cur.pos]
+				width := strutil.RealLength(string(char))
+
+				if char != inputrc.Tab && usedX > 0 && usedX+width > term.GetWidth() {
+					usedX = 0
+					usedY++
+				}
+			}
 
 			return usedX, usedY
 		}
